@@ -740,6 +740,17 @@ impl Interface {
                     return Err(EgressError::Exhausted);
                 }
 
+                // Whether a packet needs 6LoWPAN fragmentation is only known once it is compressed,
+                // so on an IEEE 802.15.4 interface everything waits for the fragments to go out.
+                #[cfg(all(
+                    feature = "medium-ieee802154",
+                    feature = "proto-sixlowpan-fragmentation"
+                ))]
+                if !self.fragmenter.finished() && inner.caps.medium == Medium::Ieee802154 {
+                    net_debug!("failed to transmit IP: fragmentation buffer busy");
+                    return Err(EgressError::Exhausted);
+                }
+
                 let t = device.transmit(inner.now).ok_or_else(|| {
                     net_debug!("failed to transmit IP: device exhausted");
                     EgressError::Exhausted
